@@ -523,6 +523,10 @@ def min_weight_bipartite_matching(
         else:
             has_null_edges = True
 
+    if edge_type is None:
+        # There are no edges in the graph
+        return {}
+
     if has_null_edges:
         if isinstance(edge_type, bool):
             raise ValueError("Null edges are only supported with `int` or `float` edge types, not `bool`. Bipartite graphs with `bool` edge weights must be complete.")
@@ -535,10 +539,7 @@ def min_weight_bipartite_matching(
     else:
         null_edge_value = None
 
-    if edge_type is None:
-        # There are no edges in the graph
-        return {}
-    elif edge_type is bool:
+    if edge_type is bool:
         dtype = bool
     elif edge_type is float:
         dtype = float
